@@ -18,15 +18,16 @@ PROPERTY = 'C12'
 CLI = 'openfilter/cli/common.py'
 TRUSTED = ['PyVC executor (DESIGN 2.3), z3 5.1.0', 'rope algebra of contracts/ropes.py (split/strip/find/slice on literals; atoms hold no separator characters) (T3)',
            'filter_can_do_filter_outputs(cls) by contract: a boolean per filter class', 'is_mq_addr (zeromq.is_zeromq_addr) is executed for real on ropes']
-ASSUMPTIONS = ['CUT: the command-line parsing prefix of parse_filters (everything before `filter_id_configs = {}`) is not under contract; the verified part starts from an arbitrary list of '
-               '(class, FilterConfig, name) with the shapes below',
+ASSUMPTIONS = ['the whole function is executed on command lines (`--param value`, `--param=value`, `--x=` for no value, `-` between filters) with get_filter (class lookup) and json_getval '
+               '(identity: ids and addresses are not JSON literals) by assumed contracts; the same filter lists are ALSO run from the cut `filter_id_configs = {}` on an arbitrary list of '
+               '(class, FilterConfig, name)',
                'shape bound: 1..3 filters; per filter: id given or not, sources absent / empty / reference to another filter by id with suffix "", "?", ";topic", "!opt" / a real address, '
                'outputs absent / empty / explicit tcp with a symbolic port / tcp without port / ipc / a non-mq output; ids, hosts, topics and ports are symbolic',
                'ids and host names are tokens without separator characters; a host token does not start with "*" or "0"',
                '"user-given port" is read as a port written in an explicit tcp OUTPUT',
                'the outputs the user wrote do not collide with each other (tcp port pairs disjoint) and a user-written ipc name is not the id of a filter of the list']
-UNDECIDED_CLAUSES = ['the argument-parsing prefix (`--param value` forms, -env options) is covered only by the bounded native enumeration']
-EXPLANATION = 'Postconditions of the cut parse_filters over rope-shaped configurations: unique ids, auto ports above every explicit port and 2 apart, same port on both ends, suffix kept, explicit addresses untouched.'
+UNDECIDED_CLAUSES = ['-env / -env-run / -env-compose options and JSON-valued options of the argument loop are not exercised by the contract (bounded native enumeration only)']
+EXPLANATION = 'Postconditions of the whole (and of the cut) parse_filters over rope-shaped configurations: unique ids, auto ports above every explicit port and 2 apart, same port on both ends, suffix kept, explicit addresses untouched.'
 
 
 def cfg(**kv):
@@ -108,13 +109,16 @@ def shapes_for(tier):
         out.append((('in', 'given', 'absent', o0), ('mid', 'given', ('ref', 0, 'topic'), o1), ('out', 'auto', ('ref', 1, 'eph'), 'absent')))
         out.append((('in', 'auto', 'absent', o0), ('in', 'auto', 'absent', o1), ('out', 'auto', ('ref', 0, 'none'), 'absent')))
         out.append((('in', 'auto', 'absent', o0), ('out', 'given', ('ref', 0, 'none'), 'absent'), ('out', 'given', ('ref', 0, 'opt'), 'absent')))
-    return [(s, ipc) for s in out for ipc in (False, True)]
+    base = [(s, ipc) for s in out for ipc in (False, True)]
+    # the same filter lists through the WHOLE function: the command line as the shell hands it over, `--param value` and `--param=value` spellings
+    whole = [(s, ipc, form) for (s, ipc) in base for form in ('sep', 'eq') if tier != 'quick' or (len(s) >= 2 and (ipc is False or form == 'sep'))]
+    return base + whole
 
 
 class ParseFiltersUnit(Unit):
-    name = 'cli.common.parse_filters (cut at `filter_id_configs = {}`) + only_mq_addr'
-    targets = (f'{CLI}::parse_filters', f'{CLI}::only_mq_addr')
-    required_covers = ('returned', 'auto port allocated', 'ipc allocated')
+    name = 'cli.common.parse_filters (whole, and cut at `filter_id_configs = {}`) + only_mq_addr'
+    targets = (f'{CLI}::parse_filters', f'{CLI}::parse_filters.parse_param_value', f'{CLI}::only_mq_addr')
+    required_covers = ('returned', 'auto port allocated', 'ipc allocated', 'whole function')
     bounded = {'filters': '1..3'}
     mutants = (
         ('auto ports 1 apart', f'{CLI}::parse_filters', '(max_port := max_port + 2)', '(max_port := max_port + 1)', 'C12.ports'),
@@ -122,6 +126,8 @@ class ParseFiltersUnit(Unit):
         ('suffix dropped from a rewritten source', f'{CLI}::parse_filters', 'sources[i] = new_source + source[len(id) :]', 'sources[i] = new_source', 'C12.suffix'),
         ('duplicate id check removed', f'{CLI}::parse_filters', 'if config.id in config_by_id:', 'if False:', 'C12.unique_ids'),
         ('source gets a different port than the bound output', f'{CLI}::parse_filters', 'id_config.outputs = f"tcp://*:{max_port}"', 'id_config.outputs = f"tcp://*:{max_port + 2}"', 'C12.same_port'),
+        ('`--param value` spelling loses the value', f'{CLI}::parse_filters.parse_param_value', 'return arg, json_getval(value)', 'return arg, True', 'C12.'),
+        ('the "-" separator between filters is ignored', f'{CLI}::parse_filters', 'if arg == "-":  # end of this filter\n                break', 'if arg == "-":  # end of this filter\n                continue', 'C12.'),
         ('only_mq_addr ignores the option separator', f'{CLI}::only_mq_addr', 'addr.find("!") & 0xFFFFFFFF,', 'addr.find("?") & 0xFFFFFFFF,', 'C12.'),
     )
 
@@ -129,7 +135,8 @@ class ParseFiltersUnit(Unit):
         return shapes_for(tier)
 
     def run(self, shape, dec):
-        fshape, ipc = shape
+        fshape, ipc = shape[0], shape[1]
+        form = shape[2] if len(shape) > 2 else None
         ex = new_exec(dec, CLI)
         set_attr_adict(ex)
         R.install(ex)
@@ -152,7 +159,7 @@ class ParseFiltersUnit(Unit):
         cut = [i for i, s in enumerate(fn.body) if isinstance(s, ast.Assign) and ast.unparse(s.targets[0]) == 'filter_id_configs']
         if len(cut) != 1:
             raise Unsupported('contract no longer binds: the cut statement `filter_id_configs = {}` of parse_filters was not found')
-        body = fn.body[cut[0]:]
+        body = fn.body[cut[0]:] if form is None else fn.body
         g = ex.modules[CLI]
         m = extract.load(CLI)
         fc_ctor = Native(lambda ex_, d=None: cfg(**(dict(d) if d is not None else {})), 'FilterConfig')
@@ -165,6 +172,29 @@ class ParseFiltersUnit(Unit):
         ex.modules['openfilter/filter_runtime/zeromq.py'] = {}
         env = Env(Env(), fn=closure(CLI, 'parse_filters'))
         env.v.update(args=[], ipc=ipc, filters=list(filters))
+        if form is not None:
+            # the command line: <Class> [--id X] [--sources S] [--outputs O] - <Class> ... ; parse_filters receives it reversed (it pops from the end)
+            toks = []
+            for i, (cls_, c_, name_) in enumerate(filters):
+                if i:
+                    toks.append('-')
+                toks.append(name_)
+                for key in ('id', 'sources', 'outputs'):
+                    if key not in c_.f['kv']:
+                        continue
+                    val = c_.f['kv'][key]
+                    if val is None:                      # `--outputs=`: no value given
+                        toks.append(f'--{key}=')
+                    elif form == 'sep':
+                        toks += [f'--{key}', val]
+                    else:
+                        toks.append(rope(f'--{key}=', val))
+            classes = {name_: cls_ for cls_, _, name_ in filters}
+            g.update(get_filter=Native(lambda ex_, nm: (None, nm, None, classes[nm]), 'get_filter'),
+                     json_getval=Native(lambda ex_, v: v, 'json_getval (precondition: ids and addresses are not JSON literals)'))
+            ex.cover('whole function')
+            del env.v['filters']
+            env.v['args'] = list(reversed(toks))
         pre = [dict(c.f['kv']) for _, c, _ in filters]
         ex.replay_info = dict(fshape=[list(f) if not isinstance(f[2], tuple) else [f[0], f[1], list(f[2]), f[3]] for f in fshape], filters=[{k: (text(v) if R.is_rope(v) or isinstance(v, str) else v) for k, v in p.items()} | {'class': n} for p, (_, _, n) in zip(pre, filters)], ipc=ipc)
         ex.model_vars = {**{f'id{i}': inf['id_atom'].z for i, inf in enumerate(info) if inf['id_atom'] is not None}, **{f'port{i}': inf['port'] for i, inf in enumerate(info) if inf['port'] is not None}, **{f'portb{i}': inf['port_b'] for i, inf in enumerate(info) if inf.get('port_b') is not None}}
